@@ -29,6 +29,15 @@ FLAVOURS = {
     'D': dict(z=['-O1', '-g', '-DDEBUGLEVEL=1'], h=['-O1', '-g'], i=['-O1', '-g'], ld=[]),
 }
 
+def _limit_mem(flavour):
+    """A minimised or mutated plan must not take the machine down: plain flavours get an address-space cap
+    (sanitizer flavours reserve terabytes of virtual memory and are bounded by their own runs being small)."""
+    if flavour in ('A', 'T'): return None
+    def f():
+        import resource
+        resource.setrlimit(resource.RLIMIT_AS, (16 << 30, 16 << 30))
+    return f
+
 def log(*a):
     print(*a, file=sys.stderr, flush=True)
 
@@ -260,7 +269,7 @@ def run_batch(flavour, scenario, root, runs, tier, workers=None, time_cap=None, 
         w.out = os.path.join(tmpd, 'w%d-%d.out' % (w.k, w.gen)); w.err = os.path.join(tmpd, 'w%d-%d.err' % (w.k, w.gen)); w.gen += 1
         cmd = [binp, scenario, '--root', str(root), '--start', str(w.next), '--count', str(w.remaining), '--stride', str(workers), '--tier', tier, '--cpu-cap', str(cpu_cap)]
         w.fo = open(w.out, 'w'); w.fe = open(w.err, 'w')
-        w.p = subprocess.Popen(cmd, stdout=w.fo, stderr=w.fe, env=env, cwd=tmpd); w.last_change = time.time(); w.last_sz = -1
+        w.p = subprocess.Popen(cmd, stdout=w.fo, stderr=w.fe, env=env, cwd=tmpd, preexec_fn=_limit_mem(flavour)); w.last_change = time.time(); w.last_sz = -1
     for k in range(workers):
         w = W(); w.k = k; w.gen = 0; w.next = k; w.remaining = (runs - k + workers - 1) // workers
         if w.remaining <= 0: continue
@@ -409,7 +418,7 @@ def run_plan(flavour, plan_lines, cpu_cap=120, want_trace=False):
     try:
         cmd = [binp, 'x', '--plan', path, '--cpu-cap', str(cpu_cap)] + (['--dump-trace'] if want_trace else [])
         try:
-            r = subprocess.run(cmd, stdout=subprocess.PIPE, stderr=subprocess.PIPE, text=True, errors='replace', timeout=cpu_cap * 4 + 60, env=dict(os.environ, SIM_CORPUS_DIR=CORPUS_ROOT))
+            r = subprocess.run(cmd, stdout=subprocess.PIPE, stderr=subprocess.PIPE, text=True, errors='replace', timeout=cpu_cap * 4 + 60, env=dict(os.environ, SIM_CORPUS_DIR=CORPUS_ROOT), preexec_fn=_limit_mem(flavour))
             rc, out, err = r.returncode, r.stdout, r.stderr
         except subprocess.TimeoutExpired as e:
             rc, out, err = 68, (e.stdout or b'').decode(errors='replace') if isinstance(e.stdout, bytes) else (e.stdout or ''), ''
